@@ -6,7 +6,7 @@ import MptModel.Impl.Convert
 import MptModel.Lemmas.Convert
 set_option linter.unusedSimpArgs false
 namespace Mpt.Conv
-open Mpt.Scalar
+open Mpt.Scalar Mpt.Flt
 
 theorem take_length_takeWhile {α} (p : α → Bool) (l : List α) : l.take (l.takeWhile p).length = l.takeWhile p := by
   induction l with
@@ -291,105 +291,310 @@ theorem noConversion_ok (tgt : Ty) (s : List Nat) (d : Bool) (o : Option Nat) (n
     exact ⟨by simp, Or.inl ⟨rfl, by simp⟩⟩
   · simp at h
 
-theorem convertInt_ok (vlen : Nat) (tgt : Ty) (hp : (vlen, tgt) ∈ [(1, Ty.b), (2, Ty.n), (4, Ty.i), (8, Ty.x)])
-    (s : List Nat) (d : Bool) (o : Option Nat) (n : Nat)
-    (h : convertInt vlen s 0 d = .ok (o, n)) : TextOK tgt s d o n := by
-  unfold convertInt at h
-  split at h
-  · simp at h; obtain ⟨rfl, rfl⟩ := h
-    exact ⟨by simp, Or.inl ⟨rfl, by simp⟩⟩
-  split at h
-  · exact noConversion_ok tgt s d o n h
-  rename_i hc
-  split at h
-  · simp at h
-  rename_i he
-  split at h
-  · simp at h
-  split at h
-  · simp at h
-  rename_i hrange
-  have he' : (strtoimax s 0).erange = false := by simpa using he
-  have hnum := strtoimax_spec s hc he'
-  have hle := strtoimax_le s
-  simp only [Res.ok.injEq, Prod.mk.injEq] at h
-  obtain ⟨ho, hn⟩ := h
-  subst hn
-  simp only [List.mem_cons, Prod.mk.injEq, List.mem_nil_iff, or_false] at hp
-  have key : inRange tgt (strtoimax s 0).value ∧ wMod vlen = tgt.card ∧ tgt.isFloat = false := by
-    rcases hp with ⟨rfl, rfl⟩ | ⟨rfl, rfl⟩ | ⟨rfl, rfl⟩ | ⟨rfl, rfl⟩ <;>
-      simp [sLo, sHi] at hrange <;> simp [inRange, Ty.lo, Ty.hi, wMod, Ty.card, Ty.isFloat] <;> omega
-  obtain ⟨hin, hmod, hfl⟩ := key
-  refine ⟨hle, Or.inr ⟨(strtoimax s 0).value, hnum, hin, ?_⟩⟩
-  cases d with
-  | false => right; simp at ho; exact ⟨rfl, ho.symm⟩
-  | true =>
-    left; simp at ho
-    refine ⟨rfl, _, ho.symm, ?_⟩
-    rw [hmod]
-    exact denote_store tgt _ hfl hin.1 hin.2
+theorem strtoimax_range (s : List Nat) (base : Nat) :
+    -9223372036854775808 ≤ (strtoimax s base).value ∧ (strtoimax s base).value ≤ 9223372036854775807 := by
+  simp only [strtoimax]
+  split
+  · simp
+  · split <;> split <;> simp <;> omega
 
-theorem convertUint_ok (vlen : Nat) (tgt : Ty) (hp : (vlen, tgt) ∈ [(1, Ty.y), (2, Ty.q), (4, Ty.u), (8, Ty.t)])
-    (s : List Nat) (d : Bool) (o : Option Nat) (n : Nat)
-    (h : convertUint vlen s 0 d = .ok (o, n)) : TextOK tgt s d o n := by
-  unfold convertUint at h
-  split at h
-  · simp at h; obtain ⟨rfl, rfl⟩ := h
-    exact ⟨by simp, Or.inl ⟨rfl, by simp⟩⟩
-  split at h
-  · exact noConversion_ok tgt s d o n h
-  rename_i hc
-  split at h
-  · simp at h
-  rename_i he
-  split at h
-  · simp at h
-  rename_i hneg
-  split at h
-  · simp at h
-  split at h
-  · simp at h
-  rename_i hrange
-  have he' : (strtoumax s 0).erange = false := by simpa using he
-  have hneg' : (scanNumber s 0).1 = false := by simpa using hneg
-  have hnum := strtoumax_spec s hc he' hneg'
-  have hle := strtoumax_le s
-  have hnn : 0 ≤ (strtoumax s 0).value := by
-    simp only [strtoumax]
-    split
+theorem strtoumax_range (s : List Nat) (base : Nat) :
+    0 ≤ (strtoumax s base).value ∧ (strtoumax s base).value ≤ 18446744073709551615 := by
+  simp only [strtoumax]
+  split
+  · simp
+  · split
     · simp
-    · split
-      · simp
-      · simp [hneg']
-  simp only [Res.ok.injEq, Prod.mk.injEq] at h
-  obtain ⟨ho, hn⟩ := h
-  subst hn
-  simp only [List.mem_cons, Prod.mk.injEq, List.mem_nil_iff, or_false] at hp
-  have key : inRange tgt (strtoumax s 0).value ∧ wMod vlen = tgt.card ∧ tgt.isFloat = false := by
-    rcases hp with ⟨rfl, rfl⟩ | ⟨rfl, rfl⟩ | ⟨rfl, rfl⟩ | ⟨rfl, rfl⟩ <;>
-      simp [uHi] at hrange <;> simp [inRange, Ty.lo, Ty.hi, wMod, Ty.card, Ty.isFloat] <;> omega
-  obtain ⟨hin, hmod, hfl⟩ := key
-  refine ⟨hle, Or.inr ⟨(strtoumax s 0).value, hnum, hin, ?_⟩⟩
-  cases d with
-  | false => right; simp at ho; exact ⟨rfl, ho.symm⟩
-  | true =>
-    left; simp at ho
-    refine ⟨rfl, _, ho.symm, ?_⟩
-    rw [hmod]
-    exact denote_store tgt _ hfl hin.1 hin.2
+    · split <;> simp <;> omega
+
+/-! ### a verified checker for the generated text parsers -/
+
+/-- values of `iv` for which the conjunction is false; `none` = shape not supported -/
+def stepTDisjunct (iv : Iv) (conj : List TextAtom) : Option Iv :=
+  match conj with
+  | [.erange] => some iv
+  | [.minus] => some iv
+  | .rangeArg :: _ => some iv
+  | [.val a] => stepDisjunct iv [a]
+  | _ => none
+
+def stepTDisj (iv : Iv) : List (List TextAtom) → Option Iv
+  | [] => some iv
+  | c :: cs => match stepTDisjunct iv c with
+    | some iv' => stepTDisj iv' cs
+    | none => none
+
+def stepTGuards (iv : Iv) : List TextGuard → Option Iv
+  | [] => some iv
+  | g :: gs => match stepTDisj iv g.conds with
+    | some iv' => stepTGuards iv' gs
+    | none => none
+
+theorem stepTDisjunct_sound (c : TextCtx) (v : Int) (hc : c.tmp = .int v) (iv iv' : Iv) (conj : List TextAtom)
+    (h : stepTDisjunct iv conj = some iv') (hv : iv.mem v) :
+    ∃ b, evalTConj c conj = .ok b ∧ (b = false → iv'.mem v) := by
+  unfold stepTDisjunct at h
+  split at h
+  · simp at h; subst h
+    exact ⟨c.erange, by simp only [evalTConj, TextAtom.eval]; cases c.erange <;> rfl, fun _ => hv⟩
+  · simp at h; subst h
+    exact ⟨c.minus, by simp only [evalTConj, TextAtom.eval]; cases c.minus <;> rfl, fun _ => hv⟩
+  · simp at h; subst h
+    exact ⟨false, by simp [evalTConj, TextAtom.eval], fun _ => hv⟩
+  · rename_i a
+    obtain ⟨b, hb, hb'⟩ := stepDisjunct_sound c.ty iv iv' [a] v h hv
+    rw [evalConj_single] at hb
+    refine ⟨b, ?_, hb'⟩
+    simp only [evalTConj, TextAtom.eval, hc, hb]
+    cases b <;> rfl
+  · simp at h
+
+theorem stepTDisj_sound (c : TextCtx) (v : Int) (hc : c.tmp = .int v) (cs : List (List TextAtom)) (iv iv' : Iv)
+    (h : stepTDisj iv cs = some iv') (hv : iv.mem v) :
+    ∃ b, evalTDisj c cs = .ok b ∧ (b = false → iv'.mem v) := by
+  induction cs generalizing iv with
+  | nil => simp [stepTDisj] at h; subst h; exact ⟨false, by simp [evalTDisj], fun _ => hv⟩
+  | cons x xs ih =>
+    simp only [stepTDisj] at h
+    split at h
+    · rename_i iv1 h1
+      obtain ⟨b, hb, hb'⟩ := stepTDisjunct_sound c v hc iv iv1 x h1 hv
+      cases b with
+      | true => exact ⟨true, by simp [evalTDisj, hb], by simp⟩
+      | false =>
+        obtain ⟨b2, h2, h2'⟩ := ih iv1 h (hb' rfl)
+        exact ⟨b2, by simp [evalTDisj, hb, h2], h2'⟩
+    · simp at h
+
+theorem stepTGuards_sound (c : TextCtx) (v : Int) (hc : c.tmp = .int v) (gs : List TextGuard) (iv iv' : Iv)
+    (h : stepTGuards iv gs = some iv') (hv : iv.mem v) :
+    (evalTGuards c gs = .ok () ∧ iv'.mem v) ∨ (∃ e, evalTGuards c gs = .err e) := by
+  induction gs generalizing iv with
+  | nil => simp [stepTGuards] at h; subst h; exact Or.inl ⟨by simp [evalTGuards], hv⟩
+  | cons g gs ih =>
+    simp only [stepTGuards] at h
+    split at h
+    · rename_i iv1 h1
+      obtain ⟨b, hb, hb'⟩ := stepTDisj_sound c v hc g.conds iv iv1 h1 hv
+      cases b with
+      | true => exact Or.inr ⟨g.err, by simp [evalTGuards, hb]⟩
+      | false =>
+        rcases ih iv1 h (hb' rfl) with h2 | ⟨e, h2⟩
+        · exact Or.inl ⟨by simp [evalTGuards, hb, h2.1], h2.2⟩
+        · exact Or.inr ⟨e, by simp [evalTGuards, hb, h2]⟩
+    · simp at h
+
+theorem evalTGuards_ok_mem (c : TextCtx) (gs : List TextGuard) (h : evalTGuards c gs = .ok ()) :
+    ∀ g ∈ gs, evalTDisj c g.conds = .ok false := by
+  induction gs with
+  | nil => intro g hg; simp at hg
+  | cons g0 rest ih =>
+    intro g hg
+    simp only [evalTGuards] at h
+    cases hd : evalTDisj c g0.conds with
+    | ok b =>
+      cases b with
+      | true => simp [hd] at h
+      | false =>
+        simp only [hd] at h
+        rcases List.mem_cons.mp hg with rfl | hr
+        · exact hd
+        · exact ih h g hr
+    | err e => simp [hd] at h
+    | null => simp [hd] at h
+    | oob => simp [hd] at h
+    | fault => simp [hd] at h
+
+theorem evalTDisj_false_mem (c : TextCtx) (cs : List (List TextAtom)) (h : evalTDisj c cs = .ok false) :
+    ∀ x ∈ cs, evalTConj c x = .ok false := by
+  induction cs with
+  | nil => intro x hx; simp at hx
+  | cons c0 rest ih =>
+    intro x hx
+    simp only [evalTDisj] at h
+    cases hd : evalTConj c c0 with
+    | ok b =>
+      cases b with
+      | true => simp [hd] at h
+      | false =>
+        simp only [hd] at h
+        rcases List.mem_cons.mp hx with rfl | hr
+        · exact hd
+        · exact ih h x hr
+    | err e => simp [hd] at h
+    | null => simp [hd] at h
+    | oob => simp [hd] at h
+    | fault => simp [hd] at h
+
+/-- some guard has the single-atom disjunct `[a]` -/
+def hasSingle (gs : List TextGuard) (a : TextAtom) : Bool := gs.any fun g => g.conds.any fun c => c == [a]
+
+theorem hasSingle_erange (c : TextCtx) (gs : List TextGuard) (hs : hasSingle gs .erange = true)
+    (h : evalTGuards c gs = .ok ()) : c.erange = false := by
+  simp only [hasSingle, List.any_eq_true, beq_iff_eq] at hs
+  obtain ⟨g, hg, x, hx, rfl⟩ := hs
+  have := evalTDisj_false_mem c g.conds (evalTGuards_ok_mem c gs h g hg) _ hx
+  simp only [evalTConj, TextAtom.eval] at this
+  cases he : c.erange <;> simp_all
+
+theorem hasSingle_minus (c : TextCtx) (gs : List TextGuard) (hs : hasSingle gs .minus = true)
+    (h : evalTGuards c gs = .ok ()) : c.minus = false := by
+  simp only [hasSingle, List.any_eq_true, beq_iff_eq] at hs
+  obtain ⟨g, hg, x, hx, rfl⟩ := hs
+  have := evalTDisj_false_mem c g.conds (evalTGuards_ok_mem c gs h g hg) _ hx
+  simp only [evalTConj, TextAtom.eval] at this
+  cases he : c.minus <;> simp_all
+
+/-- the parser `p`, called with width `vlen`, reads exactly the numerals of numbers of the integer type `tgt`:
+    overflow of `strto*` is refused, `strtoumax` is not given a minus sign, the range tests leave values of `tgt`
+    only, the store is under `if (val)` and has the target's size -/
+def checkParser (p : TextParser) (vlen : Nat) (tgt : Ty) : Bool :=
+  !tgt.isFloat &&
+  ((p.strto == "strtoimax" && p.tmpTy == .i64) ||
+   (p.strto == "strtoumax" && p.tmpTy == .u64 && hasSingle p.guards .minus)) &&
+  hasSingle p.guards .erange &&
+  match stepTGuards (srcIv p.tmpTy) p.guards with
+  | none => false
+  | some iv1 =>
+    match p.widths.find? (·.size = vlen) with
+    | none => true
+    | some w =>
+      w.guarded && !w.store.isFloat && w.store.size == (tgtCTy tgt).size &&
+      match stepTGuards iv1 w.guards with
+      | none => false
+      | some iv2 => decide (iv2.hi < iv2.lo) || (decide (tgt.lo ≤ iv2.lo) && decide (iv2.hi ≤ tgt.hi))
+
+/-- forget the stored value -/
+def dropValue : TextRes → TextRes
+  | .ok (_, n) => .ok (none, n)
+  | r => r
+
+theorem dropValue_verdict (r : TextRes) : verdict (dropValue r) = verdict r := by
+  cases r <;> rfl
+
+theorem noConversion_query (s : List Nat) : noConversion s = dropValue (noConversion s) := by
+  unfold noConversion; split <;> rfl
+
+theorem noConversion_notBroken (s : List Nat) : verdict (noConversion s) ≠ .broken := by
+  unfold noConversion; split <;> simp [verdict]
+
+/-- everything the property says about one call of a checked parser -/
+theorem runParser_sound (p : TextParser) (vlen : Nat) (tgt : Ty) (s : List Nat) (d : Bool)
+    (hc : checkParser p vlen tgt = true) :
+    verdict (runParser p vlen s 0 d) ≠ .broken ∧
+    (∀ o n, runParser p vlen s 0 d = .ok (o, n) → TextOK tgt s d o n) ∧
+    runParser p vlen s 0 false = dropValue (runParser p vlen s 0 true) := by
+  simp only [checkParser, Bool.and_eq_true, Bool.not_eq_true', Bool.or_eq_true, beq_iff_eq] at hc
+  obtain ⟨⟨⟨htf, hkind⟩, hser⟩, hrest⟩ := hc
+  -- the strto* result with its value range and its meaning
+  have hstr : ∃ r, strtoResult p s 0 = some r ∧ (srcIv p.tmpTy).mem r.value ∧ r.consumed ≤ s.length ∧
+      (r.consumed ≠ 0 → r.erange = false → (p.strto = "strtoumax" → (scanNumber s 0).1 = false) →
+        numeral (s.take r.consumed) = some r.value) := by
+    rcases hkind with ⟨hk, hty⟩ | ⟨⟨hk, hty⟩, _⟩
+    · refine ⟨strtoimax s 0, by simp [strtoResult, hk], ?_, strtoimax_le s, fun h0 he _ => strtoimax_spec s h0 he⟩
+      have := strtoimax_range s 0
+      simp only [srcIv, hty, CTy.lo, CTy.hi, Iv.mem]; omega
+    · refine ⟨strtoumax s 0, by simp [strtoResult, hk], ?_, strtoumax_le s, fun h0 he hm => strtoumax_spec s h0 he (hm hk)⟩
+      have := strtoumax_range s 0
+      simp only [srcIv, hty, CTy.lo, CTy.hi, Iv.mem]; omega
+  obtain ⟨r, hr, hmem, hle, hnum⟩ := hstr
+  unfold runParser
+  by_cases hs0 : s = []
+  · subst hs0
+    refine ⟨by simp [verdict], ?_, by simp [dropValue]⟩
+    intro o n h; simp at h; obtain ⟨rfl, rfl⟩ := h
+    exact ⟨by simp, Or.inl ⟨rfl, by simp⟩⟩
+  simp only [hs0, if_false, hr]
+  by_cases hc0 : r.consumed = 0
+  · simp only [hc0, if_true]
+    exact ⟨noConversion_notBroken s, fun o n h => noConversion_ok tgt s d o n h, noConversion_query s⟩
+  simp only [hc0, if_false]
+  generalize hctx : intCtx p r (scanNumber s 0).1 = ctx
+  have hctmp : ctx.tmp = .int r.value := by rw [← hctx]; rfl
+  split at hrest
+  · simp at hrest
+  rename_i iv1 hst1
+  rcases stepTGuards_sound ctx r.value hctmp p.guards (srcIv p.tmpTy) iv1 hst1 hmem with ⟨hok1, hin1⟩ | ⟨e, he⟩
+  · simp only [hok1]
+    have her : r.erange = false := by
+      have := hasSingle_erange ctx p.guards hser hok1
+      rw [← hctx] at this
+      simp [intCtx] at this
+      exact this.1
+    have hmin : p.strto = "strtoumax" → (scanNumber s 0).1 = false := by
+      intro hk
+      rcases hkind with ⟨hk', _⟩ | ⟨_, hsm⟩
+      · rw [hk] at hk'; simp at hk'
+      · have := hasSingle_minus ctx p.guards hsm hok1
+        rw [← hctx] at this
+        exact this
+    have hnumeral := hnum hc0 her hmin
+    cases hw : p.widths.find? (·.size = vlen) with
+    | none => exact ⟨by simp [verdict], by intro o n h; simp at h, by simp [dropValue]⟩
+    | some w =>
+      simp only [hw, Bool.and_eq_true, Bool.not_eq_true', beq_iff_eq] at hrest
+      obtain ⟨⟨⟨hwg, hwf⟩, hwsz⟩, hrest⟩ := hrest
+      split at hrest
+      · simp at hrest
+      rename_i iv2 hst2
+      rcases stepTGuards_sound ctx r.value hctmp w.guards iv1 iv2 hst2 hin1 with ⟨hok2, hin2⟩ | ⟨e, he⟩
+      · simp only [hok2, hwg, if_true]
+        simp only [Bool.or_eq_true, decide_eq_true_eq, Bool.and_eq_true] at hrest
+        have hrange : inRange tgt r.value := by
+          unfold Iv.mem at hin2
+          rcases hrest with hemp | ⟨hlo, hhi⟩
+          · omega
+          · exact ⟨by omega, by omega⟩
+        refine ⟨by cases d <;> simp [verdict], ?_, by simp [dropValue]⟩
+        intro o n h
+        have hmod := modulus_of_size w.store tgt hwf htf hwsz
+        cases d with
+        | false =>
+          simp at h; obtain ⟨rfl, rfl⟩ := h
+          exact ⟨hle, Or.inr ⟨r.value, hnumeral, hrange, Or.inr ⟨rfl, rfl⟩⟩⟩
+        | true =>
+          simp at h; obtain ⟨rfl, rfl⟩ := h
+          refine ⟨hle, Or.inr ⟨r.value, hnumeral, hrange, Or.inl ⟨rfl, _, rfl, ?_⟩⟩⟩
+          rw [hmod]
+          exact denote_store tgt _ htf hrange.1 hrange.2
+      · simp only [he]
+        exact ⟨by simp [verdict], by intro o n h; simp at h, by simp [dropValue]⟩
+  · simp only [he]
+    exact ⟨by simp [verdict], by intro o n h; simp at h, by simp [dropValue]⟩
 
 /-- the integer targets of text conversion -/
 def textTargets : List Ty := [.b, .y, .n, .q, .i, .u, .x, .t]
 
-theorem convertNumber_ok (tgt : Ty) (s : List Nat) (d : Bool) (o : Option Nat) (n : Nat)
-    (h : convertNumber tgt s d = .ok (o, n)) : TextOK tgt s d o n := by
-  cases tgt <;> simp only [convertNumber] at h
-  all_goals first
-    | exact convertInt_ok _ _ (by simp) s d o n h
-    | exact convertUint_ok _ _ (by simp) s d o n h
-    | (simp at h)
+/-- `mpt_convert_number` reaches a checked parser with base 0 for the target (or refuses the target) -/
+def checkTextTarget (tgt : Ty) : Bool :=
+  match numberTarget tgt with
+  | .ok (p, size, base) => base == 0 && checkParser p size tgt
+  | .err _ => true
+  | _ => false
+
+def checkTextTable : Bool := textTargets.all checkTextTarget
+
+theorem convertNumber_sound (tgt : Ty) (ht : tgt ∈ textTargets) (hc : checkTextTarget tgt = true) (s : List Nat) (d : Bool) :
+    verdict (convertNumber tgt s d) ≠ .broken ∧
+    (∀ o n, convertNumber tgt s d = .ok (o, n) → TextOK tgt s d o n) ∧
+    convertNumber tgt s false = dropValue (convertNumber tgt s true) := by
+  have hnc : tgt ≠ .c := by intro h; subst h; simp [textTargets] at ht
+  unfold checkTextTarget at hc
+  simp only [convertNumber, hnc, if_false]
+  cases hn : numberTarget tgt with
+  | ok v =>
+    obtain ⟨p, size, base⟩ := v
+    simp only [hn, Bool.and_eq_true, beq_iff_eq] at hc
+    obtain ⟨hb, hp⟩ := hc
+    subst hb
+    exact runParser_sound p size tgt s d hp
+  | err e => exact ⟨by simp [verdict], by intro o n h; simp at h, by simp [dropValue]⟩
+  | null => simp [hn] at hc
+  | oob => simp [hn] at hc
+  | fault => simp [hn] at hc
 
 theorem convertString_ok (tgt : Ty) (s : List Nat) (d : Bool) (o : Option Nat) (n : Nat)
+    (hnum : ∀ s' o' n', convertNumber tgt s' d = .ok (o', n') → TextOK tgt s' d o' n')
     (h : convertString tgt s d = .ok (o, n)) : TextOK tgt s d o n := by
   unfold convertString at h
   split at h
@@ -402,130 +607,210 @@ theorem convertString_ok (tgt : Ty) (s : List Nat) (d : Bool) (o : Option Nat) (
       exact ⟨by simp, Or.inl ⟨rfl, by simp⟩⟩
     · simp only [Res.ok.injEq, Prod.mk.injEq] at h
       obtain ⟨rfl, rfl⟩ := h
-      obtain ⟨hle, hcase⟩ := convertNumber_ok tgt _ d o' k hk
+      obtain ⟨hle, hcase⟩ := hnum _ o' k hk
       have hl : (s.takeWhile isSpace).length + (s.dropWhile isSpace).length = s.length := by
         rw [← List.length_append, List.takeWhile_append_dropWhile]
       refine ⟨by omega, ?_⟩
-      rcases hcase with ⟨hnone, hblank⟩ | ⟨v, hnum, hin, hval⟩
+      rcases hcase with ⟨hnone, hblank⟩ | ⟨v, hnum', hin, hval⟩
       · left
         refine ⟨hnone, ?_⟩
         rw [take_ws_add, List.all_append, all_takeWhile, hblank]; rfl
       · right
         refine ⟨v, ?_, hin, hval⟩
         rw [numeral_take]
-        unfold numeral at hnum
-        rwa [dropWhile_take_of_head isSpace _ k (head_dropWhile isSpace s)] at hnum
+        unfold numeral at hnum'
+        rwa [dropWhile_take_of_head isSpace _ k (head_dropWhile isSpace s)] at hnum'
   · rename_i hne
     exact absurd h (by intro hh; exact hne _ _ hh)
 
-/-- forget the stored value -/
-def dropValue : TextRes → TextRes
-  | .ok (_, n) => .ok (none, n)
-  | r => r
-
-theorem noConversion_query (s : List Nat) : noConversion s = dropValue (noConversion s) := by
-  unfold noConversion; split <;> rfl
-
-theorem convertInt_query (vlen : Nat) (s : List Nat) (base : Nat) :
-    convertInt vlen s base false = dropValue (convertInt vlen s base true) := by
-  unfold convertInt
-  by_cases h1 : s = []
-  · simp [h1, dropValue]
-  by_cases h2 : (strtoimax s base).consumed = 0
-  · simp only [h1, h2, if_false, if_true]; exact noConversion_query s
-  by_cases h3 : (strtoimax s base).erange = true
-  · simp [h1, h2, h3, dropValue]
-  by_cases h4 : widthOK vlen = true
-  · by_cases h5 : (strtoimax s base).value < sLo vlen ∨ (strtoimax s base).value > sHi vlen
-    · simp [h1, h2, h3, h4, h5, dropValue]
-    · simp [h1, h2, h3, h4, h5, dropValue]
-  · simp [h1, h2, h3, h4, dropValue]
-
-theorem convertUint_query (vlen : Nat) (s : List Nat) (base : Nat) :
-    convertUint vlen s base false = dropValue (convertUint vlen s base true) := by
-  unfold convertUint
-  by_cases h1 : s = []
-  · simp [h1, dropValue]
-  by_cases h2 : (strtoumax s base).consumed = 0
-  · simp only [h1, h2, if_false, if_true]; exact noConversion_query s
-  by_cases h3 : (strtoumax s base).erange = true
-  · simp [h1, h2, h3, dropValue]
-  by_cases h6 : (scanNumber s base).1 = true
-  · simp [h1, h2, h3, h6, dropValue]
-  by_cases h4 : widthOK vlen = true
-  · by_cases h5 : (strtoumax s base).value > uHi vlen
-    · simp [h1, h2, h3, h4, h5, h6, dropValue]
-    · simp [h1, h2, h3, h4, h5, h6, dropValue]
-  · simp [h1, h2, h3, h4, h6, dropValue]
-
-theorem convertNumber_query (tgt : Ty) (s : List Nat) :
-    convertNumber tgt s false = dropValue (convertNumber tgt s true) := by
-  cases tgt <;> simp only [convertNumber, convertInt_query, convertUint_query] <;> rfl
-
-theorem convertString_query (tgt : Ty) (s : List Nat) :
+theorem convertString_query (tgt : Ty) (s : List Nat)
+    (hq : ∀ s', convertNumber tgt s' false = dropValue (convertNumber tgt s' true)) :
     convertString tgt s false = dropValue (convertString tgt s true) := by
   unfold convertString
-  rw [convertNumber_query]
+  rw [hq]
   split
   · rfl
   · cases h : convertNumber tgt (List.dropWhile isSpace s) true with
     | ok v => obtain ⟨o, n⟩ := v; simp only [dropValue]; split <;> rfl
     | _ => rfl
 
-theorem dropValue_verdict (r : TextRes) : verdict (dropValue r) = verdict r := by
-  cases r <;> rfl
-
-theorem noConversion_notBroken (s : List Nat) : verdict (noConversion s) ≠ .broken := by
-  unfold noConversion; split <;> simp [verdict]
-
-theorem convertInt_notBroken (vlen : Nat) (s : List Nat) (base : Nat) (d : Bool) :
-    verdict (convertInt vlen s base d) ≠ .broken := by
-  unfold convertInt
-  by_cases h1 : s = []
-  · simp [h1, verdict]
-  by_cases h2 : (strtoimax s base).consumed = 0
-  · simp only [h1, h2, if_false, if_true]; exact noConversion_notBroken s
-  by_cases h3 : (strtoimax s base).erange = true
-  · simp [h1, h2, h3, verdict]
-  by_cases h4 : widthOK vlen = true
-  · by_cases h5 : (strtoimax s base).value < sLo vlen ∨ (strtoimax s base).value > sHi vlen
-    · simp [h1, h2, h3, h4, h5, verdict]
-    · simp [h1, h2, h3, h4, h5, verdict]
-  · simp [h1, h2, h3, h4, verdict]
-
-theorem convertUint_notBroken (vlen : Nat) (s : List Nat) (base : Nat) (d : Bool) :
-    verdict (convertUint vlen s base d) ≠ .broken := by
-  unfold convertUint
-  by_cases h1 : s = []
-  · simp [h1, verdict]
-  by_cases h2 : (strtoumax s base).consumed = 0
-  · simp only [h1, h2, if_false, if_true]; exact noConversion_notBroken s
-  by_cases h3 : (strtoumax s base).erange = true
-  · simp [h1, h2, h3, verdict]
-  by_cases h6 : (scanNumber s base).1 = true
-  · simp [h1, h2, h3, h6, verdict]
-  by_cases h4 : widthOK vlen = true
-  · by_cases h5 : (strtoumax s base).value > uHi vlen
-    · simp [h1, h2, h3, h4, h5, h6, verdict]
-    · simp [h1, h2, h3, h4, h5, h6, verdict]
-  · simp [h1, h2, h3, h4, h6, verdict]
-
-theorem convertNumber_notBroken (tgt : Ty) (ht : tgt ∈ textTargets) (s : List Nat) (d : Bool) :
-    verdict (convertNumber tgt s d) ≠ .broken := by
-  cases tgt <;> simp [textTargets] at ht <;> simp only [convertNumber] <;>
-    first | exact convertInt_notBroken _ _ _ _ | exact convertUint_notBroken _ _ _ _
-
-theorem convertString_notBroken (tgt : Ty) (ht : tgt ∈ textTargets) (s : List Nat) (d : Bool) :
-    verdict (convertString tgt s d) ≠ .broken := by
+theorem convertString_notBroken (tgt : Ty) (s : List Nat) (d : Bool)
+    (hn : ∀ s', verdict (convertNumber tgt s' d) ≠ .broken) : verdict (convertString tgt s d) ≠ .broken := by
   unfold convertString
   split
   · simp [verdict]
-  · have := convertNumber_notBroken tgt ht (s.dropWhile isSpace) d
+  · have := hn (s.dropWhile isSpace)
     cases h : convertNumber tgt (List.dropWhile isSpace s) d with
     | ok v => obtain ⟨o, n⟩ := v; simp only; split <;> simp [verdict]
     | err e => simp [verdict]
     | null => simp [h, verdict] at this
     | oob => simp [h, verdict] at this
     | fault => simp [h, verdict] at this
+
+/-! ### the character target -/
+
+/-- outcome of an accepted text -> 'c' conversion: blank text and nothing stored, or blanks followed by a printable
+    character, which is what is stored -/
+def CharOK (s : List Nat) (d : Bool) (o : Option Nat) (n : Nat) : Prop :=
+  n ≤ s.length ∧
+  ((o = none ∧ n = 0 ∧ s.all isSpace = true) ∨
+   (∃ c, 1 ≤ n ∧ s[n - 1]? = some c ∧ isGraph c = true ∧ (s.take (n - 1)).all isSpace = true ∧
+      (if d then o = some c else o = none)))
+
+theorem convertChar_ok (s : List Nat) (d : Bool) (o : Option Nat) (n : Nat) (h : convertChar s d = .ok (o, n)) :
+    CharOK s d o n := by
+  unfold convertChar at h
+  have hdec := List.takeWhile_append_dropWhile (p := isSpace) (l := s)
+  have hl : (s.takeWhile isSpace).length + (s.dropWhile isSpace).length = s.length := by
+    rw [← List.length_append, hdec]
+  split at h
+  · rename_i hnil
+    simp at h; obtain ⟨rfl, rfl⟩ := h
+    refine ⟨by simp, Or.inl ⟨rfl, rfl, ?_⟩⟩
+    rw [← hdec, hnil, List.append_nil]; exact all_takeWhile isSpace s
+  · rename_i c rest hcons
+    split at h
+    · rename_i hg
+      simp only [Res.ok.injEq, Prod.mk.injEq] at h
+      obtain ⟨ho, rfl⟩ := h
+      have hlen : (s.dropWhile isSpace).length = rest.length + 1 := by rw [hcons]; simp
+      refine ⟨by omega, Or.inr ⟨c, by omega, ?_, ?_, ?_, ?_⟩⟩
+      · simp only [Nat.add_sub_cancel]
+        have : s[(s.takeWhile isSpace).length]? =
+            (s.takeWhile isSpace ++ s.dropWhile isSpace)[(s.takeWhile isSpace).length]? := by rw [hdec]
+        rw [this, List.getElem?_append_right (Nat.le_refl _), hcons]; simp
+      · simp [isGraph]; omega
+      · simp only [Nat.add_sub_cancel]
+        rw [take_length_takeWhile]; exact all_takeWhile isSpace s
+      · cases d <;> simp at ho ⊢ <;> exact ho.symm
+    · simp at h
+
+theorem convertChar_query (s : List Nat) : convertChar s false = dropValue (convertChar s true) := by
+  unfold convertChar
+  split
+  · rfl
+  · split <;> rfl
+
+theorem convertChar_notBroken (s : List Nat) (d : Bool) : verdict (convertChar s d) ≠ .broken := by
+  unfold convertChar
+  split
+  · simp [verdict]
+  · split <;> simp [verdict]
+
+theorem convertStringChar_ok (s : List Nat) (d : Bool) (o : Option Nat) (n : Nat)
+    (h : convertString .c s d = .ok (o, n)) : CharOK s d o n := by
+  have hdec := List.takeWhile_append_dropWhile (p := isSpace) (l := s)
+  have hl : (s.takeWhile isSpace).length + (s.dropWhile isSpace).length = s.length := by
+    rw [← List.length_append, hdec]
+  unfold convertString at h
+  split at h
+  · rename_i hs; subst hs
+    simp at h; obtain ⟨rfl, rfl⟩ := h
+    exact ⟨by simp, Or.inl ⟨rfl, rfl, by simp⟩⟩
+  split at h
+  · rename_i o' k hk
+    simp only [convertNumber, if_true] at hk
+    obtain ⟨hle, hcase⟩ := convertChar_ok _ d o' k hk
+    split at h
+    · rename_i hk0
+      simp at h; obtain ⟨rfl, rfl⟩ := h
+      refine ⟨by simp, Or.inl ⟨rfl, rfl, ?_⟩⟩
+      rcases hcase with ⟨_, _, hall⟩ | ⟨c, h1, _⟩
+      · rw [← hdec, List.all_append, all_takeWhile, hall]; rfl
+      · omega
+    · rename_i hk0
+      simp only [Res.ok.injEq, Prod.mk.injEq] at h
+      obtain ⟨rfl, rfl⟩ := h
+      rcases hcase with ⟨_, h0, _⟩ | ⟨c, h1, hget, hg, hblank, hso⟩
+      · exact absurd h0 hk0
+      · refine ⟨by omega, Or.inr ⟨c, by omega, ?_, hg, ?_, hso⟩⟩
+        · have : s[(s.takeWhile isSpace).length + k - 1]? =
+              (s.takeWhile isSpace ++ s.dropWhile isSpace)[(s.takeWhile isSpace).length + k - 1]? := by rw [hdec]
+          rw [this, List.getElem?_append_right (by omega)]
+          have : (s.takeWhile isSpace).length + k - 1 - (s.takeWhile isSpace).length = k - 1 := by omega
+          rw [this]; exact hget
+        · have : (s.takeWhile isSpace).length + k - 1 = (s.takeWhile isSpace).length + (k - 1) := by omega
+          rw [this, take_ws_add, List.all_append, all_takeWhile, hblank]; rfl
+  · rename_i hne
+    exact absurd h (by intro hh; exact hne _ _ hh)
+
+/-! ### floating parsers: an overflowing numeral is refused -/
+
+/-- the parser refuses when `strto*` reports ERANGE and returned an infinity: it has a guard with the disjuncts
+    `errno == ERANGE && tmp > F` and `errno == ERANGE && tmp < F'` -/
+def checkFloatParser (p : TextParser) : Bool :=
+  p.errnoReset && p.tmpTy.isFloat &&
+  p.guards.any fun g =>
+    (g.conds.any fun c => match c with
+      | [.erange, .val (.cmp .gt cty _)] => cty.isFloat && decide (p.tmpTy.size ≤ cty.size)
+      | _ => false) &&
+    (g.conds.any fun c => match c with
+      | [.erange, .val (.cmp .lt cty _)] => cty.isFloat && decide (p.tmpTy.size ≤ cty.size)
+      | _ => false)
+
+/-- the libc contract the theorem relies on: an overflowing numeral yields an infinity and `errno = ERANGE` -/
+def StrToF.contract (r : StrToF) : Prop := r.overflow = true → r.erange = true ∧ ∃ sg, r.value = .inf sg
+
+theorem evalTConj_erange_cmp (c : TextCtx) (x : FVal) (hx : c.tmp = .flt x) (op : Cmp) (cty : CTy) (k : Int)
+    (hf : cty.isFloat = true) (hs : c.ty.size ≤ cty.size) :
+    evalTConj c [.erange, .val (.cmp op cty k)] = .ok (c.erange && cmpF op x k) := by
+  simp only [evalTConj, TextAtom.eval, Atom.eval, hx, Atom.evalF, hf, hs, and_self, if_true]
+  cases c.erange <;> cases cmpF op x k <;> rfl
+
+theorem runFloatParser_no_overflow (p : TextParser) (hc : checkFloatParser p = true) (r : StrToF) (hr : r.contract)
+    (s : List Nat) (d : Bool) (o : Option FVal) (n : Nat) (h : runFloatParser p r s d = .ok (o, n)) (hn : n ≠ 0) :
+    r.overflow = false ∧ n = r.consumed ∧ (d = true → o = some r.value) := by
+  unfold runFloatParser at h
+  split at h
+  · simp at h; exact absurd h.2.symm hn
+  split at h
+  · split at h <;> simp at h
+    exact absurd h.2.symm hn
+  generalize hctx : floatCtx p r.value r.erange = ctx at h
+  cases hg : evalTGuards ctx p.guards with
+  | ok u =>
+    simp only [hg] at h
+    simp only [checkFloatParser, Bool.and_eq_true, List.any_eq_true] at hc
+    obtain ⟨⟨hreset, htyf⟩, g, hgm, ⟨cu, hcu, htu⟩, ⟨cl, hcl, htl⟩⟩ := hc
+    have hdisj := evalTGuards_ok_mem ctx p.guards hg g hgm
+    have hnov : r.overflow = false := by
+      cases hov : r.overflow with
+      | false => rfl
+      | true =>
+        exfalso
+        obtain ⟨her, sg, hval⟩ := hr hov
+        have hcer : ctx.erange = true := by rw [← hctx]; simp [floatCtx, her]
+        have hctmp : ctx.tmp = .flt (.inf sg) := by rw [← hctx, hval]; rfl
+        have hcty : ctx.ty = p.tmpTy := by rw [← hctx]; rfl
+        cases sg with
+        | false =>
+          split at htu
+          · rename_i cty k
+            simp only [Bool.and_eq_true, decide_eq_true_eq] at htu
+            have := evalTDisj_false_mem ctx g.conds hdisj _ hcu
+            rw [evalTConj_erange_cmp ctx _ hctmp .gt cty k htu.1 (by rw [hcty]; exact htu.2)] at this
+            simp [hcer, cmpF, FVal.gtInt] at this
+          · simp at htu
+        | true =>
+          split at htl
+          · rename_i cty k
+            simp only [Bool.and_eq_true, decide_eq_true_eq] at htl
+            have := evalTDisj_false_mem ctx g.conds hdisj _ hcl
+            rw [evalTConj_erange_cmp ctx _ hctmp .lt cty k htl.1 (by rw [hcty]; exact htl.2)] at this
+            simp [hcer, cmpF, FVal.ltInt] at this
+          · simp at htl
+    split at h
+    · cases d with
+      | true => simp at h; exact ⟨hnov, h.2.symm, fun _ => h.1.symm⟩
+      | false =>
+        simp only [Bool.false_eq_true, if_false] at h
+        split at h
+        · simp at h; exact ⟨hnov, h.2.symm, by simp⟩
+        · simp at h
+    · simp at h
+  | err e => simp [hg] at h
+  | null => simp [hg] at h
+  | oob => simp [hg] at h
+  | fault => simp [hg] at h
 
 end Mpt.Conv
